@@ -62,11 +62,8 @@ Qed.
 
 (* ---- preservation ---------------------------------------------------------------------------- *)
 
-Definition deliver_fn (p : list Z) (c : uconn) : uconn :=
-  if c_closed c then c else {| c_remote := c_remote c; c_buf := c_buf c ++ [p]; c_closed := false; c_accepted := c_accepted c |}.
-
 Lemma deliver_fn_flags p c : c_accepted (deliver_fn p c) = c_accepted c /\ c_closed (deliver_fn p c) = c_closed c.
-Proof. unfold deliver_fn. destruct (c_closed c) eqn:E; simpl; auto. Qed.
+Proof. unfold deliver_fn. destruct (c_closed c) eqn:E; [auto|]. destruct (buf_full c); simpl; auto. Qed.
 
 Lemma deliver_keeps_open l id p :
   open_acc (upd_conn l id (deliver_fn p)) = open_acc l.
@@ -74,7 +71,7 @@ Proof.
   unfold deliver_fn.
   destruct (nth_error l id) as [c|] eqn:E.
   - rewrite (open_acc_upd l id _ c E). unfold is_open.
-    destruct (c_closed c) eqn:Ec; destruct (c_accepted c) eqn:Ea; simpl; rewrite ?Ec, ?Ea; simpl; lia.
+    destruct (c_closed c) eqn:Ec; destruct (c_accepted c) eqn:Ea; destruct (buf_full c); simpl; rewrite ?Ec, ?Ea; simpl; lia.
   - clear - E. revert id E. induction l as [|x l IH]; intros id E; destruct id; simpl in *; try reflexivity; try discriminate.
     rewrite IH by assumption. reflexivity.
 Qed.
@@ -107,7 +104,7 @@ Proof.
     assert (Hlc : l_closed s = false).
     { destruct (l_closed s) eqn:E; [|reflexivity]. destruct (C eq_refl) as [_ H]. congruence. }
     set (id := length (allc s)).
-    set (c := {| c_remote := r; c_buf := []; c_closed := false; c_accepted := false |}).
+    set (c := {| c_remote := r; c_buf := []; c_closed := false; c_accepted := false; c_limit := 0 |}).
     assert (Hnth : nth_error (allc s ++ [c]) id = Some c).
     { unfold id. rewrite nth_error_app2 by lia. rewrite Nat.sub_diag. reflexivity. }
     assert (Hfresh : ~ In id (acceptq s)).
@@ -155,6 +152,23 @@ Proof.
     destruct (Nat.eq_dec id j) as [->|Hne].
     + rewrite G1 in E. inversion E; subst c0. eexists. rewrite (nth_upd_conn_same _ _ _ c G1). simpl. auto.
     + exists c0. rewrite nth_upd_conn_other by assumption. auto.
+Qed.
+
+(* changing the count limit of a connection's buffer touches nothing the invariant speaks about *)
+Lemma set_limit_inv s id n : LInv s -> LInv (set_limit s id n).
+Proof.
+  intros I. pose proof I as [R C [ND Q]]. unfold set_limit.
+  destruct (nth_error (allc s) id) as [c|] eqn:E.
+  - split; simpl.
+    + rewrite (open_acc_upd _ _ _ c E). unfold is_open. simpl. rewrite R. destruct (c_accepted c && negb (c_closed c)); lia.
+    + exact C.
+    + split; [exact ND|]. intros j Hj; simpl in *. destruct (Q j Hj) as [c0 [G1 [G2 G3]]].
+      destruct (Nat.eq_dec id j) as [->|Hne].
+      * rewrite G1 in E. inversion E; subst c0. eexists. rewrite (nth_upd_conn_same _ _ _ c G1). simpl. auto.
+      * exists c0. rewrite nth_upd_conn_other by assumption. auto.
+  - assert (Hsame : forall (l : list uconn) i f, nth_error l i = None -> upd_conn l i f = l).
+    { induction l as [|x l IH]; intros i f Hn; destruct i; simpl in *; try reflexivity; try discriminate. rewrite IH by assumption. reflexivity. }
+    rewrite Hsame by assumption. destruct s; exact I.
 Qed.
 
 (* closing an accepted connection *)
@@ -214,12 +228,13 @@ Fixpoint hist_valid (s : lst) (h : list lop) : Prop :=
 
 Lemma step_inv s o : LInv s -> op_valid s o -> LInv (fst (l_step s o)).
 Proof.
-  intros I V. destruct o as [r p| |id k|id|]; simpl.
+  intros I V. destruct o as [r p| |id k|id| |id n]; simpl.
   - apply arrive_inv. assumption.
   - pose proof (accept_inv s I) as A. destruct (accept s) as [s' r]. exact A.
   - pose proof (conn_read_inv s id k I) as A. destruct (conn_read s id k) as [s' [c bs]]. exact A.
   - destruct V as [c [H1 H2]]. eapply conn_close_inv; eassumption.
   - apply listener_close_inv. assumption.
+  - apply set_limit_inv. assumption.
 Qed.
 
 Theorem final_inv h : forall s, LInv s -> hist_valid s h -> LInv (l_final s h).
